@@ -19,6 +19,7 @@ EXPLANATION = (
 
 
 def run(ctx: Ctx) -> None:
+    ctx.rule('R-REWRITE-coalesce', 'the text rewriters see coalesced text: a template tag split by a soft break is protected only after the pieces are merged')
     ctx.rule('R-ESCAPE-SITE', 'the line-start escaper is only applied to whole tokens of the atomic-aware word splitter')
     ctx.rule("R-ENCODE-verbatim", "only content-preserving operations between a verbatim field and the output")
     ctx.rule("R-ENCODE-codespan", "code span delimiter is computed from the content's backtick runs")
@@ -41,7 +42,7 @@ def run(ctx: Ctx) -> None:
     ctx.run(render.check_fields, {"lang", "extra", "fence_char", "fence_len", "dest", "title", "label", "body", "alert_type",
                                   "CodeSpan.children", "InlineHTML.children", "Literal.children", "CodeBlock.children", "CustomFencedCode.children"})
     ctx.run(rewrite.check_rewrite_scope)
-    ctx.run(rewrite.check_coalesce_and_tags, {"tags"})
+    ctx.run(rewrite.check_coalesce_and_tags)  # (tag protection only works on coalesced text: a tag cut in two by a soft break is two non-tags)
     ctx.run(wrap.check_placeholders)
     ctx.run(hazard.check_escaper_on_tokens)
     ctx.assume("marko's own normalisation while parsing (autolink prefixes, label folding, info-string unescaping) is outside the repository")
